@@ -265,6 +265,90 @@ func c06NestedContext(r *run.Run, maxLen int) {
 		})
 }
 
+// c06ThreeLevels: a context rule runs a context rule that runs a substitution: the innermost lookup works
+// inside the match of the middle one, which lies inside the match of the outer one - also when the middle
+// lookup ignores glyphs that the outer one does not.
+func c06ThreeLevels(r *run.Run, maxLen int) {
+	alphabet := []glyph.ID{gen.GA, gen.GB, gen.GM, gen.GC}
+	outerPats := []gen.Pattern{{Name: "AB", Input: []glyph.ID{gen.GA, gen.GB}}, {Name: "ABM", Input: []glyph.ID{gen.GA, gen.GB, gen.GM}}, gen.Patterns[2]}
+	middlePats := []gen.Pattern{{Name: "B", Input: []glyph.ID{gen.GB}}, {Name: "AB", Input: []glyph.ID{gen.GA, gen.GB}}, gen.Patterns[2]}
+	leaves := []struct {
+		name string
+		st   gtab.Subtable
+	}{
+		{"GSUB4 B M -> X", &gtab.Gsub4_1{Cov: coverage.Table{gen.GB: 0}, Repl: [][]gtab.Ligature{{{In: []glyph.ID{gen.GM}, Out: gen.GX}}}}},
+		{"GSUB4 A B -> L", &gtab.Gsub4_1{Cov: coverage.Table{gen.GA: 0}, Repl: [][]gtab.Ligature{{{In: []glyph.ID{gen.GB}, Out: gen.GL}}}}},
+		{"GSUB1 B -> Y, M -> N", &gtab.Gsub1_2{Cov: coverage.Table{gen.GB: 0, gen.GM: 1}, SubstituteGlyphIDs: []glyph.ID{gen.GY, gen.GN}}},
+	}
+	r.Explore(explore.Config{Name: "C06.three-levels", Deadline: r.PartDeadline(0.2)},
+		fmt.Sprintf("lists [context rule -> context rule -> ligature / single substitution]: outer form (6) x outer pattern {AB, ABM, A} x position of the middle lookup x middle form (6) x middle pattern {B, AB, A} x middle flags {none, ignore marks} x position of the innermost lookup x 3 innermost lookups, on all glyph sequences of length <= %d over {A,B,M,C}", maxLen),
+		func(c *explore.Ctx) {
+			oform := c.Choose(6, "outer form")
+			opat := outerPats[c.Choose(len(outerPats), "outer pattern")]
+			at1 := c.Choose(2, "middle lookup at sequence index")
+			mform := c.Choose(6, "middle form")
+			mpat := middlePats[c.Choose(len(middlePats), "middle pattern")]
+			mf := gen.Flags[c.Choose(2, "middle flags")]
+			at2 := c.Choose(2, "innermost lookup at sequence index")
+			leaf := leaves[c.Choose(len(leaves), "innermost lookup")]
+			typ := func(form int) uint16 {
+				if form >= 3 {
+					return 6
+				}
+				return 5
+			}
+			lt := uint16(4)
+			if _, ok := leaf.st.(*gtab.Gsub1_2); ok {
+				lt = 1
+			}
+			ll := gtab.LookupList{
+				gen.MakeLookup(typ(oform), gen.Flags[0], []gtab.Subtable{gen.Context(oform, opat, []gtab.SeqLookup{{SequenceIndex: uint16(at1), LookupListIndex: 1}})}),
+				gen.MakeLookup(typ(mform), mf, []gtab.Subtable{gen.Context(mform, mpat, []gtab.SeqLookup{{SequenceIndex: uint16(at2), LookupListIndex: 2}})}),
+				gen.MakeLookup(lt, gen.Flags[0], []gtab.Subtable{leaf.st}),
+			}
+			gd, _ := gen.Gdef(0)
+			desc := []string{fmt.Sprintf("0: %s [%s] 1@%d", gen.ContextForms[oform], opat.Name, at1), fmt.Sprintf("1: %s %s [%s] 2@%d", gen.ContextForms[mform], mf.Name, mpat.Name, at2), "2: " + leaf.name}
+			c.Sample(func() any { return desc })
+			compareShaping(c, ll, gd, []gtab.LookupIndex{0}, false, alphabet, maxLen, "three levels: "+gen.ContextForms[mform]+" under "+gen.ContextForms[oform], desc)
+		})
+}
+
+// c06RuleSets: two rules in one rule set of a glyph-based (format 1) context or chained context subtable: the
+// first rule that matches is used, and what an earlier rule matched before it failed leaves no trace.
+func c06RuleSets(r *run.Run, maxLen int) {
+	alphabet := []glyph.ID{gen.GA, gen.GB, gen.GC, gen.GL}
+	tails := [][]glyph.ID{{gen.GB}, {gen.GB, gen.GC}, {gen.GB, gen.GL}, {gen.GC}}
+	r.Explore(explore.Config{Name: "C06.rule-sets", Deadline: r.PartDeadline(0.2)},
+		fmt.Sprintf("context and chained context subtables in format 1 whose rule set for A holds two rules, inputs A+{B, BC, BL, C} each, every action position 0..2 (also beyond the rule's input), the first rule of a chained set with or without a lookahead glyph, nested lookup B->Y C->X L->N A->M: on all glyph sequences of length <= %d over {A,B,C,L}", maxLen),
+		func(c *explore.Ctx) {
+			chained := c.Bool("chained")
+			t1 := tails[c.Choose(len(tails), "first rule")]
+			a1 := c.Choose(3, "action position of the first rule")
+			t2 := tails[c.Choose(len(tails), "second rule")]
+			a2 := c.Choose(3, "action position of the second rule")
+			child := gen.MakeLookup(1, gen.Flags[0], []gtab.Subtable{&gtab.Gsub1_2{Cov: coverage.Table{gen.GA: 0, gen.GB: 1, gen.GC: 2, gen.GL: 3}, SubstituteGlyphIDs: []glyph.ID{gen.GM, gen.GY, gen.GX, gen.GN}}})
+			act := func(i int) []gtab.SeqLookup { return []gtab.SeqLookup{{SequenceIndex: uint16(i), LookupListIndex: 1}} }
+			var parent *gtab.LookupTable
+			desc := fmt.Sprintf("rules A%s -> 1@%d, A%s -> 1@%d", gen.SeqName(t1), a1, gen.SeqName(t2), a2)
+			if chained {
+				var la []glyph.ID
+				if c.Bool("the first rule has a lookahead glyph") {
+					la = []glyph.ID{gen.GC}
+					desc += ", first rule followed by C"
+				}
+				parent = gen.MakeLookup(6, gen.Flags[0], []gtab.Subtable{&gtab.ChainedSeqContext1{Cov: coverage.Table{gen.GA: 0}, Rules: [][]*gtab.ChainedSeqRule{{
+					{Input: t1, Lookahead: la, Actions: act(a1)}, {Input: t2, Actions: act(a2)}}}}})
+				desc = "chained context fmt1, " + desc
+			} else {
+				parent = gen.MakeLookup(5, gen.Flags[0], []gtab.Subtable{&gtab.SeqContext1{Cov: coverage.Table{gen.GA: 0}, Rules: [][]*gtab.SeqRule{{
+					{Input: t1, Actions: act(a1)}, {Input: t2, Actions: act(a2)}}}}})
+				desc = "context fmt1, " + desc
+			}
+			c.Sample(func() any { return desc })
+			compareShaping(c, gtab.LookupList{parent, child}, nil, []gtab.LookupIndex{0}, false, alphabet, maxLen, "rule sets", desc)
+		})
+}
+
 // c06NestedLigature: a nested ligature / multiple substitution that skips marks the parent matched as
 // ordinary input glyphs, followed (or preceded) by a second action at every sequence index: the
 // positions the parent recorded for its input glyphs have to be renumbered after glyphs were merged or
@@ -441,6 +525,8 @@ func init() {
 		c06AnchorOrigin(r)
 		c06Subtables(r, maxLen-1)
 		c06NestedContext(r, maxLen)
+		c06ThreeLevels(r, maxLen-1)
+		c06RuleSets(r, maxLen-1)
 		c06NestedLigature(r, maxLen+1)
 		c06FlagPairs(r, maxLen-1)
 		c06Simple(r, maxLen-1)
